@@ -2,7 +2,7 @@ package gen
 
 var base = Profile{
 	Depth: 3, WSel: 6, WRangeFn: 5, WInstFn: 3, WAggr: 6, WKAggr: 3, WBinVV: 5, WBinVS: 4, WUnary: 2, WParen: 1,
-	WVecOf: 1, WClamp: 2, WHist: 1, WTs: 2,
+	WVecOf: 1, WClamp: 2, WHist: 1, WTs: 2, WTwice: 2,
 	WNum: 6, WTime: 2, WPi: 1, WScalar: 2, WSArith: 2,
 	POffset: 0.2, PAt: 0.12, PMatcher: 0.3, PBool: 0.4, PMatch: 0.6, PGroup: 0.4, PBy: 0.6,
 }
@@ -16,15 +16,15 @@ func ProfileFor(name string) Profile {
 	case "selector":
 		// WBinVV: the same metric selected twice in one query with different modifiers (the
 		// selections are cached per query by matchers, time range and hints)
-		p = Profile{Name: name, Depth: 1, WSel: 10, WParen: 2, WUnary: 0, WAggr: 1, WBinVS: 1, WBinVV: 4,
+		p = Profile{Name: name, Depth: 1, WSel: 10, WParen: 2, WUnary: 0, WAggr: 1, WBinVS: 1, WBinVV: 2, WTwice: 4,
 			WNum: 1, POffset: 0.5, PAt: 0.4, PMatcher: 0.3, PBy: 0, Metrics: []string{"m1", "m1", "m2"}}
 	case "rangefn":
-		p = Profile{Name: name, Depth: 1, WRangeFn: 10, WAggr: 1, WParen: 1, WNum: 1, POffset: 0.4, PAt: 0.3, PMatcher: 0.2, PBy: 0.5}
+		p = Profile{Name: name, Depth: 1, WRangeFn: 10, WAggr: 1, WParen: 1, WTwice: 3, WNum: 1, POffset: 0.4, PAt: 0.3, PMatcher: 0.2, PBy: 0.5}
 	case "aggr":
 		p = Profile{Name: name, Depth: 3, WSel: 4, WRangeFn: 1, WAggr: 8, WKAggr: 6, WBinVS: 1, WNum: 4, WTime: 1, WScalar: 2, WSArith: 1,
 			POffset: 0.1, PAt: 0.05, PMatcher: 0.2, PBy: 0.8, Weird: true}
 	case "binary":
-		p = Profile{Name: name, Depth: 3, WSel: 6, WAggr: 3, WKAggr: 2, WBinVV: 8, WBinVS: 4, WParen: 1, WNum: 4, WTime: 1, WScalar: 1, WSArith: 1,
+		p = Profile{Name: name, Depth: 3, WSel: 6, WAggr: 3, WKAggr: 2, WBinVV: 8, WBinVS: 4, WParen: 1, WTwice: 2, WNum: 4, WTime: 1, WScalar: 1, WSArith: 1,
 			POffset: 0.1, PAt: 0.05, PMatcher: 0.3, PBool: 0.5, PMatch: 0.8, PGroup: 0.5, PBy: 0.8}
 	case "func":
 		p = Profile{Name: name, Depth: 3, WSel: 4, WRangeFn: 1, WInstFn: 8, WAggr: 2, WBinVS: 2, WUnary: 3, WParen: 1, WVecOf: 3, WClamp: 5, WHist: 2, WTs: 4,
